@@ -123,3 +123,29 @@ package zuc
 //@   ensures ecov(c)
 //@   ensures forall j :: 0 <= j && j < L ==> dst[j] == bxor8(SA[SO + j], ZKS(KID, offset + j))
 //@   modifies dst[0..len(src)], c.stateIndex, c.x, c.xLen, c.used, c.zucState32, c.states, heap H_ptr, ghost(zkid, c.zucState32), ghost(zpos, c.zucState32)
+
+// construction: position 0, one checkpoint (the initial state), empty buffer
+//@ func newZUCState trusted
+//@   ensures err == nil ==> result0 != nil && ghost(zpos, result0) == 0 && ghost(zkid, result0) == ZKID(arr(key), offof(key), len(key), arr(iv), offof(iv), len(iv))
+//@   ensures err != nil ==> result0 == nil
+//@   freshornil result0
+//@   modifies nothing
+
+//@ func NewCipher property C11
+//@   ensures err == nil ==> result0 != nil && einv(result0) && result0.used == 0 && result0.xLen == 0 && len(result0.states) == 1 && result0.bucketSize == 0 && ghost(zkid, result0.zucState32) == ZKID(arr(key), offof(key), len(key), arr(iv), offof(iv), len(iv))
+//@   ensures err != nil ==> result0 == nil
+//@   freshornil result0
+//@   modifies nothing
+
+//@ func NewCipherWithBucketSize property C11
+//@   requires bucketSize < 1099511627000
+//@   ensures err == nil ==> result0 != nil && result0.used == 0 && result0.bucketSize % 128 == 0 && (bucketSize > 0 ==> result0.bucketSize >= bucketSize && result0.bucketSize < bucketSize + 128) && (bucketSize <= 0 ==> result0.bucketSize == 0)
+//@   ensures err == nil ==> eshape(result0)
+//@   ensures err == nil ==> epos(result0)
+//@   ensures err == nil ==> ebuf(result0)
+//@   ensures err == nil ==> echk(result0)
+//@   ensures err == nil ==> ecov(result0)
+//@   ensures err == nil ==> ghost(zkid, result0.zucState32) == ZKID(arr(key), offof(key), len(key), arr(iv), offof(iv), len(iv))
+//@   ensures err != nil ==> result0 == nil
+//@   freshornil result0
+//@   modifies nothing
